@@ -128,6 +128,18 @@ POS = {
     # default value of a parameter
     "default": lambda R, S, i: "fn d%d(x: %s ?= %s)->int { 0 }" % (i, R, S),
 }
+# positions that also need an inhabitant of the required type (RI): an optional parameter passed explicitly, by name and
+# through a function value
+POS_RI = {
+    "optarg": lambda R, S, i, RI: "fn o%d(x: int, y: %s ?= %s)->int { 0 }\nlet v%d = o%d(1, %s);" % (i, R, RI, i, i, S),
+    "optarg_value": lambda R, S, i, RI: "fn p%d(x: int, y: %s ?= %s)->int { 0 }\nlet q%d = p%d;\nlet v%d = q%d(1, %s);" % (i, R, RI, i, i, i, i, S),
+}
+
+
+def pos_src(p, c, i):
+    if p in POS_RI:
+        return POS_RI[p](ann(c["req"]), inh(c["sup"]), i, inh(c["req"]))
+    return POS[p](ann(c["req"]), inh(c["sup"]), i)
 
 
 def inh_ctx(t):
@@ -378,26 +390,28 @@ def run_style(chk, tier, seed, declared):
     allcases = [c for c in allcases if json.dumps(c["sup"], sort_keys=True) in good_sup]
     cases = [c for c in allcases if c["assign"] != "n/a"]
     if tier == "quick":
-        positions = ["let", "arg"] + [["field", "variant", "return", "element"][seed % 4]] + ["callparam", "calllambda", "default"]
+        positions = ["let", "arg"] + [["field", "variant", "return", "element"][seed % 4]] + ["callparam", "calllambda", "default", "optarg_value"]
     else:
-        positions = list(POS)
+        positions = list(POS) + list(POS_RI)
         if len(cases) > 40000:
             cases = [c for i, c in enumerate(cases) if (i + seed) % (len(cases) // 40000 + 1) == 0]
     yes, no = [], []
     for ci, c in enumerate(cases):
         for p in positions:
+            if tier == "quick" and p == "optarg_value" and (ci + seed) % 3:
+                continue
             (yes if c["assign"] == "yes" else no).append((ci, p))
     jobs, meta = [], {}
     B = 40
     for b in range(0, len(yes), B):
         chunk = yes[b:b + B]
-        src = mk("\n".join(POS[p](ann(cases[ci]["req"]), inh(cases[ci]["sup"]), k) for k, (ci, p) in enumerate(chunk)) + "\n")
+        src = mk("\n".join(pos_src(p, cases[ci], k) for k, (ci, p) in enumerate(chunk)) + "\n")
         jid = "y%d" % b
         jobs.append({"id": jid, "src": src, "compile_only": True})
         meta[jid] = chunk
     for k, (ci, p) in enumerate(no):
         jid = "n%d" % k
-        jobs.append({"id": jid, "src": mk(POS[p](ann(cases[ci]["req"]), inh(cases[ci]["sup"]), 0) + "\n"), "compile_only": True})
+        jobs.append({"id": jid, "src": mk(pos_src(p, cases[ci], 0) + "\n"), "compile_only": True})
         meta[jid] = [(ci, p)]
     res = vf.run_jobs(jobs, "c04")
     solo = []
@@ -405,7 +419,7 @@ def run_style(chk, tier, seed, declared):
         if j["id"].startswith("y") and vf.job_outcome(res[j["id"]]) != "ok":
             for k, (ci, p) in enumerate(meta[j["id"]]):
                 sid = "%s_%d" % (j["id"], k)
-                solo.append({"id": sid, "src": mk(POS[p](ann(cases[ci]["req"]), inh(cases[ci]["sup"]), 0) + "\n"), "compile_only": True})
+                solo.append({"id": sid, "src": mk(pos_src(p, cases[ci], 0) + "\n"), "compile_only": True})
                 meta[sid] = [(ci, p)]
     res.update(vf.run_jobs(solo, "c04-solo"))
     n = 0
